@@ -18,6 +18,7 @@ def validate(w, evfile):
 def run(rep, tier, seed):
     thorough = tier == "thorough"
     rep.assumptions += ["host contract is spec/Trace_Host.tla (Concat, Closed, SameOutcome); values of oracle programs from spec/Lang.tla",
+                        "directed endings family: 27 kinds of final value x 12 contexts that emit code after it (assignment, operators, ternary, computed definition ...) x every tail glued on and after a blank (contract only)",
                         "tails are valid constructs that break off (literal, call, index, block, template, operator, keyword prefixes) after ';', newline, blank or nothing",
                         "a detail text that renders a multi-key dict is compared as a multiset of characters (map order unspecified)"]
     with Work("c03") as w:
@@ -39,6 +40,18 @@ def run(rep, tier, seed):
             # (b) repository corpus and generated texts (contract only)
             run_vh(["corpus", w.path("corpus.ndjson")])
             run_vh(["gen", "-out", w.path("gen.ndjson"), "-n", "4000" if thorough else "500", "-depth", "3"], env={"VERIF_SEED": str(seed)})
+            # directed: every kind of program ending x every context that emits code after it x every tail, glued on and after a blank
+            run_vh(["c03-endings", "-out", w.path("endings.ndjson")])
+            from concurrent.futures import ThreadPoolExecutor
+            def shard(i):
+                o = w.path("endings.ev.%d" % i)
+                r = run_vh(["c03-text", "-in", w.path("endings.ndjson"), "-out", o, "-alltails", "-shard", "%d/12" % i, "-every", "1" if thorough else "3"], env={"VERIF_SEED": str(seed)}, timeout=6000)
+                return o, json.loads(r.stdout.strip().splitlines()[-1])["inputs"]
+            vlib.build_harness()
+            with ThreadPoolExecutor(12) as ex:
+                for o, k in ex.map(shard, range(12)):
+                    stats["ending_inputs"] = stats.get("ending_inputs", 0) + k
+                    out.write(open(o).read())
             for f in ("corpus.ndjson", "gen.ndjson"):
                 o = w.path(f + ".ev")
                 r = run_vh(["c03-text", "-in", w.path(f), "-out", o, "-tails", "4" if thorough else "3"], env={"VERIF_SEED": str(seed)}, timeout=3000)
